@@ -506,6 +506,7 @@ def _i1(ctx, kinds):
             cand.append((p, evs, secs))
             ctx.paths_visited += 1
         reported = set()
+        deep = {}
         for s0 in states:
             if op[0] == 'send':
                 want, post = spec_send(s0, op[1])
@@ -523,7 +524,20 @@ def _i1(ctx, kinds):
             else:
                 continue
             matched = 0
-            for p, evs, secs in cand:
+            todo = list(cand)
+            if op[0] == 'drain' and want.startswith('count:'):
+                # a drain written as ONE loop (`loop { match internal.take() {..} }`) needs one iteration per value taken, where the
+                # two-loop spelling needs at most max(buffered, blocked): unroll as far as this state requires
+                need = s0.q + len(s0.wl) + 1
+                if need > max(ctx.k, 2):
+                    if need not in deep:
+                        deep[need] = []
+                        for p2 in (b.paths(need) or []):
+                            if p2.end == 'return':
+                                e2 = ctx.sem(p2)
+                                deep[need].append((p2, e2, split_sections(e2)))
+                    todo = deep[need] or todo
+            for p, evs, secs in todo:
                 lb = sem.labels(evs)
                 s = s0.copy()
                 try:
